@@ -35,7 +35,10 @@ OnCall(s, e) ==
 OnReq(s, e) ==
   LET dr == IF s.predEnd \/ e.oids # s.pred THEN 1 ELSE 0 IN
   [st |-> [s EXCEPT !.req = e, !.nreq = @ + 1, !.asked = @ \cup ToSet(e.oids), !.drift = @ + dr],
-   cl |-> << <<"request_budget_exceeded", s.nreq + 1 <= Cardinality(s.revealed) + 2>>,
+   \* a request reveals a new instance or is the last one of its column set (+2: the first and the last request); when the agent
+   \* truncates GETBULK answers inside the first repetition every column is completed by requests of its own, and such a request
+   \* may reveal nothing new (end of the view, or an instance another column's request had shown): one request per (column, asked OID)
+   cl |-> << <<"request_budget_exceeded", s.nreq + 1 <= (IF s.fragmented THEN Len(Roots) * (Cardinality(s.revealed) + 1) ELSE Cardinality(s.revealed)) + 2>>,
              \* (an OID the agent's truncated answer had no binding for may - must - be asked for again)
              <<"re_requested_oid", \A i \in DOMAIN e.oids : e.oids[i] \notin s.asked \/ e.oids[i] \in s.unanswered>>,
              <<"request_after_fault", s.faultAt = 0>> >>]
